@@ -60,8 +60,11 @@ def render(kind, cls, n, name):
 class Run(object):
     """One execution of the real protocol."""
 
-    def __init__(self, seg=("whole",), rng=None, wrap=True, late_attach=False):
+    def __init__(self, seg=("whole",), rng=None, wrap=True, late_attach=False, wire=None):
         self.wrap = wrap
+        # the names the two event kinds have on the wire (the model's EVA / EVB by default; a pair of Tor's own names where
+        # one is the beginning of the other, e.g. STREAM / STREAM_BW)
+        self.wire = dict(wire or {"EVA": "EVA", "EVB": "EVB"})
         self.late_attach = late_attach
         self.unattached = []
         self.defs = {}
@@ -95,7 +98,7 @@ class Run(object):
             (b"AUTHENTICATE", b"250 OK\r\n"),
             (b"GETINFO signal/names", b"250-signal/names=RELOAD HUP SHUTDOWN NEWNYM\r\n250 OK\r\n"),
             (b"GETINFO version", b"250-version=0.4.8.0\r\n250 OK\r\n"),
-            (b"GETINFO events/names", b"250-events/names=" + " ".join(EVNAMES).encode() + b"\r\n250 OK\r\n"),
+            (b"GETINFO events/names", b"250-events/names=" + " ".join(self.wire[n] for n in EVNAMES).encode() + b"\r\n250 OK\r\n"),
             (b"USEFEATURE EXTENDED_EVENTS", b"250 OK\r\n"),
         ]
         for want, reply in script:
@@ -209,7 +212,8 @@ class Run(object):
                     break
             names = []
             if text.startswith(b"SETEVENTS"):
-                names = sorted(text.decode().split()[1:])
+                inv = dict((v, k) for k, v in self.wire.items())
+                names = sorted(inv.get(x, x) for x in text.decode().split()[1:])
             wrote.append([sid, names])
         for f in self._flush():
             pass
@@ -230,6 +234,7 @@ class Run(object):
         if key in self._ls:
             return self._ls[key]
         run = self
+        wname = self.wire.get(evname, evname)
 
         def cb(data):
             run.dlnow.append([lname, run.toks(data)])
@@ -238,19 +243,19 @@ class Run(object):
             if lname == "self":
                 # a one-shot listener: unsubscribes itself whenever it is called, registered or not (if a peer
                 # has just unsubscribed it, the second removal is an error inside this listener)
-                run.proto.remove_event_listener(evname, cb)
+                run.proto.remove_event_listener(wname, cb)
             if lname == "other":
                 victim = run.listener("ok2", evname)
-                if victim in run.proto.events.get(evname, _NoCbs).callbacks:
-                    run.proto.remove_event_listener(evname, victim)
+                if victim in run.proto.events.get(wname, _NoCbs).callbacks:
+                    run.proto.remove_event_listener(wname, victim)
             if lname == "killer":
                 victim = run.listener("self", evname)
-                if victim in run.proto.events.get(evname, _NoCbs).callbacks:
-                    run.proto.remove_event_listener(evname, victim)
+                if victim in run.proto.events.get(wname, _NoCbs).callbacks:
+                    run.proto.remove_event_listener(wname, victim)
             if lname == "adder":
                 late = run.listener("late", evname)
-                if late not in run.proto.events.get(evname, _NoCbs).callbacks:
-                    run.proto.add_event_listener(evname, late)
+                if late not in run.proto.events.get(wname, _NoCbs).callbacks:
+                    run.proto.add_event_listener(wname, late)
         self._ls[key] = cb
         return cb
 
@@ -316,9 +321,9 @@ class Run(object):
                 self.unattached = [x for x in self.unattached if x[1] != e["c"]]
                 self.defs[e["c"]].cancel()
             elif a == "AddL":
-                p.add_event_listener(e["n"], self.listener(e["l"], e["n"]))
+                p.add_event_listener(self.wire[e["n"]], self.listener(e["l"], e["n"]))
             elif a == "RemL":
-                p.remove_event_listener(e["n"], self.listener(e["l"], e["n"]))
+                p.remove_event_listener(self.wire[e["n"]], self.listener(e["l"], e["n"]))
             elif a == "WhenDisc":
                 self.when_disc(e.get("k", "plain"))
             elif a in ("BeginReply", "BeginEvent"):
@@ -326,7 +331,7 @@ class Run(object):
                 name = e.get("n", "") if a == "BeginEvent" else ""
                 for i, kind in enumerate(e["sh"]):
                     self.nline += 1
-                    wire, piece = render(kind, cls, self.nline, name if i == 0 else "")
+                    wire, piece = render(kind, cls, self.nline, self.wire.get(name, name) if i == 0 else "")
                     if piece is not None and kind not in ("sOK", "d0"):
                         self.tokmap[piece] = self.nline
                     self.pending.append(wire.encode("ascii") + b"\r\n")
@@ -438,16 +443,16 @@ class _Sink(object):
         pass
 
 
-def replay(script, seg=("whole",), rng=None, late_attach=False):
+def replay(script, seg=("whole",), rng=None, late_attach=False, wire=None):
     """run a whole stimulus script; returns the trace (steps with obs)"""
-    run = Run(seg, rng, late_attach=late_attach)
+    run = Run(seg, rng, late_attach=late_attach, wire=wire)
     steps = []
     for i, e in enumerate(script):
         obs = run.step(e, script[i + 1:])
         s = dict(e)
         s["obs"] = obs
         steps.append(s)
-    return dict(steps=steps, seg=list(seg), late=bool(late_attach), errors=run.errors[:3])
+    return dict(steps=steps, seg=list(seg), late=bool(late_attach), wire=run.wire, errors=run.errors[:3])
 
 
 # ---------------------------------------------------------------------------
